@@ -75,7 +75,7 @@ def run(ctx: core.Ctx) -> None:
         for v in trace.validate(ctx, "SchemeTrace", events, count_traces=False):
             e = events[v["tid"] - 1]
             for cl in v["clauses"]:
-                ctx.violation(cl, f"ladder {summary[v['tid'] - 1]} does not shrink (each rung <= 0.85 x previous, finest pair <= 0.7): errs*1e8 = {e['errs']}",
+                ctx.violation(cl, f"ladder {summary[v['tid'] - 1]} does not shrink (each rung smaller than the previous, finest pair <= 0.7): errs*1e8 = {e['errs']}",
                               replay={"stage": "ladder", "summary": summary[v["tid"] - 1]})
     ctx.extra["ladders"] = summary
     # random runs: StartsAtZero / Monotone / Ceiling on every family and schedule
